@@ -144,6 +144,17 @@ def run_case(spec):
     add('input-mutated', 'screen-input-mutated', 'fit() changed the caller frame')
   if not fit.ok:
     if fit.exc_type == 'ValueError' and 'Both control and treatment' in str(fit.exc):
+      # documented outcome only if what was *reported* as removed really leaves a group empty
+      rep = d.get_test_results()
+      gone_geos = set(rep.get('noisy_geos') or [])
+      gone_dates = set(rep.get('outlier_dates') or [])
+      left = before[~before[names['geo']].isin(gone_geos) & ~before[names['date']].isin(gone_dates)]
+      groups_left = set(left[names['group']].unique())
+      if labels['control'] in groups_left and labels['treatment'] in groups_left:
+        add('fit-raises', 'screen-raises-although-both-groups-remain',
+            'fit raised "%s" although the input minus the reported noisy geos %r and outlier dates %r still holds both groups' % (
+                str(fit.exc)[:60], sorted(gone_geos), sorted(map(str, gone_dates))))
+        return done(True, ['fit-raised'])
       counters['whole_group_removed'] += 1
       return done(False, ['group-removed'])
     add('fit-raises', 'screen-fit-raises:' + fit.exc_type, 'TBRDiagnostics.fit raised %s' % fit.describe())
